@@ -79,7 +79,7 @@ original alignment.
 		defer utils.CloseWriteFile(f, distbootOutput)
 
 		align := <-aligns.Achan
-		if aligns.Err != nil {
+		if align == nil {
 			err = aligns.Err
 			io.LogError(err)
 			return
